@@ -7,7 +7,7 @@ def bad : Sexp := .list [.atom "bad-request"]
 
 /-- `asis` (the code's current flags; `repaired` is an alias) | `aswas` (the pinned snapshot before the
 fixes), optionally suffixed `-rev` (iterate Go maps in reverse order) -/
-def defectsOfAtom : String → Option (Defects × (Table → Table))
+def defectsOfAtom : String → Option (NDefects × (Table → Table))
   | "asis" | "repaired" => some (.asIs, id)
   | "aswas" => some (.asWas, id)
   | "asis-rev" | "repaired-rev" => some (.asIs, List.reverse)
@@ -112,7 +112,7 @@ def expectOfAtom : String → Option Expect
   | _ => none
 
 /-- `expr.Env(env)`: strict, the types table of the environment, the default type of a typed map -/
-def cfgOfEnv (dn : Defects) (dt : TDefects) (e : Env) (strict : Bool) (ex : Expect) : CheckCfg :=
+def cfgOfEnv (dn : NDefects) (dt : TDefects) (e : Env) (strict : Bool) (ex : Expect) : CheckCfg :=
   { types := createTypesTable dn id e
     strict := strict
     defaultType :=
